@@ -13,6 +13,7 @@ TagsAV == %s
 TagsBV == %s
 TopTagsV == %s
 BadPrimTagsV == %s
+WideV == TRUE
 ====
 """
 CFG = """SPECIFICATION Spec
@@ -21,6 +22,7 @@ CONSTANTS Mags <- MagsV
  TagsB <- TagsBV
  TopTags <- TopTagsV
  BadPrimTags <- BadPrimTagsV
+ Wide <- WideV
  ByteSpan = %d
  Depth = %d
 INVARIANT RoundTrip
